@@ -1,4 +1,7 @@
+#[cfg(not(o2o_verif))]
 use std::collections::HashMap;
+#[cfg(o2o_verif)]
+use crate::verif_shim::HashMap;
 use std::fmt::Display;
 use std::hash::Hash;
 use std::ops::{Index, Not};
